@@ -68,8 +68,8 @@ let event_of_words (w : string list) : C.event =
 (* ---- names of control points, for class labels and messages *)
 let ppc_name = function
   | C.PNone -> "PNone" | C.PRecv true -> "PRecvFirst" | C.PRecv false -> "PRecv" | C.PErrChk -> "PErrChk"
-  | C.PConnack _ -> "PConnack" | C.PConnackCancel _ -> "PConnackCancel" | C.PAll -> "PAll"
-  | C.PResend _ -> "PResend" | C.PAckDel _ -> "PAckDel" | C.PAckFut _ -> "PAckFut" | C.PPubCb _ -> "PPubCb"
+  | C.PConnack _ -> "PConnack" | C.PConnackCancel _ -> "PConnackCancel" | C.PAll _ -> "PAll"
+  | C.PResend _ -> "PResend" | C.PConnDone (_, None) -> "PConnDone" | C.PConnDone (_, Some _) -> "PConnFail" | C.PAckDel _ -> "PAckDel" | C.PAckFut _ -> "PAckFut" | C.PPubCb _ -> "PPubCb"
   | C.PPubAck _ -> "PPubAck" | C.PPubSave _ -> "PPubSave" | C.PPubRec _ -> "PPubRec"
   | C.PRecSave _ -> "PRecSave" | C.PRecSend _ -> "PRecSend" | C.PRelLookup _ -> "PRelLookup"
   | C.PRelCb _ -> "PRelCb" | C.PRelComp _ -> "PRelComp" | C.PRelDel _ -> "PRelDel"
@@ -306,9 +306,18 @@ let run clause_prefix path =
          (match TraceScan.resend_step x e with
           | Some x' -> go x' rest
           | None ->
-            let due = match x with TraceScan.RDue (p :: _) -> s_of_packet p | _ -> "-" in
-            report "resend_on_connect" q ("listed_packet_not_resent due=" ^ due ^ " next_processor_event=" ^ event_kind e ^ " (trace scan)")) in
-     go TraceScan.RNone evs);
+            let due = match x with TraceScan.RDue (p :: _) -> s_of_packet p | TraceScan.RConn -> "listing" | _ -> "-" in
+            let is_new = (match e with
+                | C.ETx (p, _, _) -> TraceScan.api_send p
+                | C.ESave (Store.Outgoing, _, _) -> not (TraceScan.proc_obs e)
+                | _ -> false) in
+            if is_new then begin
+              report "resend_before_new" q ("new_request_between_connack_and_last_resend due=" ^ due ^ " event=" ^ event_kind e ^ " (trace scan)");
+              (* go on behind it: the re-send itself is still judged *)
+              go x rest
+            end else
+              report "resend_on_connect" q ("listed_packet_not_resent due=" ^ due ^ " next_processor_event=" ^ event_kind e ^ " (trace scan)")) in
+     go TraceScan.RInit evs);
     (let rec go x = function
        | [] -> ()
        | (q, e) :: rest ->
